@@ -311,3 +311,44 @@ func VC_C04_method_variadic() {
 	verifAssert(got == 7 || got == -1, "C04.method-variadic.result-is-configured")
 	verifReached("C04.method-variadic")
 }
+
+
+// VC_C04_variadic_in_lengths: In on a variadic function with alternatives of (possibly
+// different) lengths 1..2 against calls of 0..3 arguments: a call matches iff some
+// alternative has exactly its length and equals it element by element.
+func VC_C04_variadic_in_lengths() {
+	vEnv()
+	defer func() {
+		if e := recover(); e != nil {
+			verifAssert(false, "C04.variadic-in-lengths.no-panic")
+		}
+	}()
+	w, err := CreateWhen(nil, vFV, nil, []interface{}{-1}, false)
+	verifAssert(err == nil, "C04.variadic-in-lengths.create-ok")
+	la := 1 + verifChoice("lenA", 2)
+	lb := 1 + verifChoice("lenB", 2)
+	na := verifChoice("nargs", 4)
+	a1, a2, b1, b2 := verifInt("a1"), verifInt("a2"), verifInt("b1"), verifInt("b2")
+	altA := []interface{}{a1, a2}[:la]
+	altB := []interface{}{b1, b2}[:lb]
+	w.In(altA, altB).Return(7)
+	args := make([]int, na)
+	for i := 0; i < na; i++ {
+		args[i] = verifInt(vTailN[i])
+	}
+	f := vStubFunc(w).(func(...int) int)
+	got := f(args...)
+	av, bv := [2]int{a1, a2}, [2]int{b1, b2}
+	mA, mB := la == na, lb == na
+	for i := 0; i < na && i < 2; i++ {
+		if la == na {
+			mA = verifAnd(mA, av[i] == args[i])
+		}
+		if lb == na {
+			mB = verifAnd(mB, bv[i] == args[i])
+		}
+	}
+	verifAssert((got == 7) == verifOr(mA, mB), "C04.variadic-in-lengths.membership")
+	verifAssert(got == 7 || got == -1, "C04.variadic-in-lengths.result-is-configured")
+	verifReached("C04.variadic-in-lengths")
+}
